@@ -1,6 +1,10 @@
 package main
 
 import (
+	crand "crypto/rand"
+	"crypto/rsa"
+	"crypto/x509"
+	"encoding/pem"
 	"bufio"
 	"bytes"
 	"crypto/hmac"
@@ -57,6 +61,9 @@ type pfCfg struct {
 	V           int64        `json:"V"`
 	G           int64        `json:"G"`
 	DefaultSlug string       `json:"defaultSlug"`
+	Signer      bool         `json:"signer"` // REQUESTSIGNER_KEY configured
+	Hmac        bool         `json:"hmac"`   // <service>_signing_key configured for every upstream
+	Inject      map[string]string `json:"inject"`
 }
 
 type pfSess struct {
@@ -135,10 +142,29 @@ type pfWorld struct {
 	csrfs    map[string][]string
 	tmp      string
 	cookieName string
+	verify   func(r *http.Request, body []byte, rec M)
 }
 
 const pfSecretB64 = "MDEyMzQ1Njc4OWFiY2RlZjAxMjM0NTY3ODlhYmNkZWY=" // base64("0123456789abcdef0123456789abcdef")
 const pfClientSecret = "proxy-client-secret"
+const pfHmacSecret = "shared-hmac-secret"
+
+var signerPEMCache string
+
+func signerPEM() string {
+	if signerPEMCache == "" {
+		k, err := rsa.GenerateKey(crand.Reader, 2048)
+		if err != nil {
+			panic(err)
+		}
+		b, err := x509.MarshalPKCS8PrivateKey(k)
+		if err != nil {
+			panic(err)
+		}
+		signerPEMCache = string(pem.EncodeToMemory(&pem.Block{Type: "PRIVATE KEY", Bytes: b}))
+	}
+	return signerPEMCache
+}
 
 func (w *pfWorld) reply(rw http.ResponseWriter, r pfReply, okStatus int, body func() string) {
 	switch r.Kind {
@@ -212,7 +238,13 @@ func newPfWorld(cfg pfCfg) (*pfWorld, error) {
 			for k, v := range r.Header {
 				hdr[k] = v
 			}
-			w.reached = append(w.reached, M{"service": svc, "host": r.Host, "path": r.URL.EscapedPath(), "query": r.URL.RawQuery, "headers": hdr})
+			body, _ := io.ReadAll(r.Body)
+			rec := M{"service": svc, "host": r.Host, "path": r.URL.EscapedPath(), "decodedPath": r.URL.Path, "query": r.URL.RawQuery, "headers": hdr,
+				"method": r.Method, "body": hxb(body), "contentLength": r.ContentLength, "te": r.TransferEncoding}
+			if w.verify != nil {
+				w.verify(r, body, rec)
+			}
+			w.reached = append(w.reached, rec)
 			w.mu.Unlock()
 			status := 200
 			if st != nil {
@@ -236,7 +268,7 @@ func newPfWorld(cfg pfCfg) (*pfWorld, error) {
 			fmt.Fprintf(&y, "    type: rewrite\n")
 		}
 		o := &cfgOpts{Addrs: u.Addrs, Domains: u.Domains, Groups: u.Groups, SkipAuthRegex: u.Skip, ProviderSlug: u.Slug, HeaderOverrides: u.Override,
-			Timeout: u.Timeout, FlushInterval: u.Flush}
+			Timeout: u.Timeout, FlushInterval: u.Flush, Inject: cfg.Inject}
 		fmt.Fprintf(&y, "    options:\n%s", yamlOpts(o, "      "))
 	}
 	f, err := os.CreateTemp("", "verif-pf-*.yml")
@@ -260,7 +292,16 @@ func newPfWorld(cfg pfCfg) (*pfWorld, error) {
 	c.UpstreamConfigs.DefaultConfig.ProviderSlug = cfg.DefaultSlug
 	c.UpstreamConfigs.DefaultConfig.Timeout = 2 * time.Second
 	c.LoggingConfig.Enable = false
-	if err := proxy.SetUpstreamConfigs(&c.UpstreamConfigs, c.SessionConfig.CookieConfig, &c.ServerConfig); err != nil {
+	vars := map[string]string{}
+	if cfg.Hmac {
+		for _, u := range cfg.Upstreams {
+			vars[u.Service+"_signing_key"] = "sha256:" + pfHmacSecret
+		}
+	}
+	if cfg.Signer {
+		c.RequestSignerConfig.Key = signerPEM()
+	}
+	if err := proxy.VerifSetUpstreams(&c, vars); err != nil {
 		w.close()
 		return nil, err
 	}
